@@ -11,10 +11,10 @@ import Apko.Model.Cache
 
 Answer: `impl \t verdict \t class` — impl = the model's `state|outcomes` after the same builds, verdict =
 the property's oracle evaluated on Go's output, class `F19a` iff the model run itself passed through
-a regular incomplete file under a final name (the regeneration write).
+a regular incomplete file under a final name (impossible for the repaired builders: `adv_invariant`).
 
 `cache-conc \t expect \t goState \t goOutcomes \t offline` — oracle only (concurrent recovery builds,
-then one offline build).  `cache-plant …` — the verdict is computed by the harness (oracle-go).
+then one offline build).  `cache-plant \t kind \t want \t online \t offline` — planted entries: both outcomes must be `want` or `err`.
 -/
 namespace Apko.Driver.Cache
 open Apko.Cache
@@ -107,9 +107,9 @@ def runPkgs (n : Nat) (offline : Bool) : List Pkg → FS → Nat → Option (Nat
     FS × Nat × String × Bool   -- fs, nextTmp, status ("ok" | "err" | "crash"), all observations complete
   | [], fs, nt, _, okc => (fs, nt, "ok", okc)
   | p :: rest, fs, nt, budget, okc =>
-    let prog := if offline then pkgOffline p.k1 p.k2 p.k3 n
-      else pkgBuilder (.tmp nt) (.tmp (nt + 1)) (.tmp (nt + 2)) p.k1 p.k2 p.k3 n
-    let nt' := if offline then nt else nt + 3
+    let prog := if offline then pkgOffline (.tmp nt) p.k1 p.k2 p.k3 n
+      else pkgBuilder (.tmp nt) (.tmp (nt + 1)) (.tmp (nt + 2)) (.tmp (nt + 3)) p.k1 p.k2 p.k3 n
+    let nt' := if offline then nt + 1 else nt + 4
     let (fs', pr, budget', stopped) := runSeg fs prog budget
     if stopped then (fs', nt', "crash", okc)
     else match halted pr with
@@ -205,7 +205,15 @@ def handle (args : List String) : Option String :=
       | none, none =>
         if offline == expect || offline == "err" then "pass" else s!"fail:offline-after-recovery:{offline}"
     some ("-\t" ++ verdict ++ "\tunlisted")
-  | "cache-plant" :: _ => some "-\t-\tunlisted"
+  | ["cache-plant", kind, want, on, off] =>
+    -- a planted entry (truncated / foreign / stale) must never be used: the cache-less image or an error
+    let ok := fun (o : String) => o == want || o == "err"
+    let verdict := if ok on && ok off then "pass" else s!"fail:planted-entry-used:{kind}:online={on}:offline={off}"
+    -- F19b: `cachedPackage` never checks a cached data section against the hash in its name: a truncated
+    -- `.dat.tar` is used as it is, and the size of a truncated `.dat.tar.gz` goes into the installed db
+    some ("-\t" ++ verdict ++ "\t" ++
+      (if kind == "empty-tar" || kind == "cut-tar" || kind == "trunc-dat" then "F19b" else "unlisted"))
+  | "cache-plant" :: _ => some "-\tfail:harness-setup\tunlisted"
   | _ => none
 
 end Apko.Driver.Cache
